@@ -19,6 +19,20 @@ CHECKS = {
 }
 
 NOT_YET = {}
+
+# per-property snippets written by whoever built the property: harness/props/cxx.manifest.json
+import glob
+for fn in sorted(glob.glob(os.path.join(HERE, "..", "harness", "props", "c*.manifest.json"))):
+    pid = os.path.basename(fn).split(".")[0].upper()
+    try:
+        d = json.load(open(fn))
+    except Exception as e:  # a half-written snippet must not invalidate the manifest
+        print("skipping", fn, e)
+        continue
+    if d.get("claim", True) and all(k in d for k in ("text", "technique", "note")):
+        CHECKS[pid] = dict(text=d["text"], ref=d.get("ref", f"§5 {pid}"), technique=d["technique"], note=d["note"])
+    elif "not_applicable_reason" in d:
+        NOT_YET[pid] = d["not_applicable_reason"]
 ALL = [f"C{i:02d}" for i in range(1, 21)]
 
 def main():
